@@ -105,6 +105,13 @@ func (x *Run) loadField(st *State, ref string, ty types.Type, i int) Val {
 	name := x.fieldArr(ty, i)
 	v := Val{T: sel(x.arr(st, name), ref), S: x.d.sortOf(ft), Ty: ft}
 	x.assumeType(st, v)
+	if ct, ok := types.Unalias(ft).Underlying().(*types.Chan); ok && x.closable != nil && !x.closable[typeKey(ct.Elem())] && !x.closable["field:"+name] {
+		// no close() of a channel with this element type exists in the loaded frp packages
+		st.assume(not(sel(x.arr(st, x.chClosedArr(ft)), v.T)))
+		x.mu.Lock()
+		x.opaque["neverclosed:"+name] = true
+		x.mu.Unlock()
+	}
 	return v
 }
 
@@ -464,9 +471,17 @@ func (x *Run) mkSlice(s Sort, arr, ln string) string {
 
 // ---- channels ----
 
-func (x *Run) chClosedArr() string {
-	x.arrSort("ChClosed", "(Array Int Bool)")
-	return "ChClosed"
+// chClosedArr: ghost closed-flag array, one per channel element type
+// (channels of different types never alias).
+func (x *Run) chClosedArr(t types.Type) string {
+	name := "ChClosed"
+	if t != nil {
+		if ct, ok := types.Unalias(t).Underlying().(*types.Chan); ok {
+			name = "ChClosed." + shortTypeName(ct.Elem())
+		}
+	}
+	x.arrSort(name, "(Array Int Bool)")
+	return name
 }
 func (x *Run) chCapArr() string {
 	x.arrSort("ChCap", "(Array Int Int)")
